@@ -869,7 +869,14 @@ class SymX:
                 if isinstance(v, ast.Constant):
                     parts.append(C(v.value))
                 else:
-                    parts.append(("fmt", ev(v.value), v.conversion, src(v.format_spec) if v.format_spec else None))
+                    spec = None
+                    if v.format_spec is not None:
+                        fs = v.format_spec
+                        if isinstance(fs, ast.JoinedStr) and all(isinstance(x, ast.Constant) for x in fs.values):
+                            spec = "".join(str(x.value) for x in fs.values)
+                        else:
+                            spec = src(fs)
+                    parts.append(("fmt", ev(v.value), v.conversion, spec))
             return ("fstr", tuple(parts))
         if isinstance(e, ast.Call):
             return self.call(e, st, f, depth)
@@ -1095,6 +1102,19 @@ def classify(loop):
                 out[v] = Fold("EXT", sense="min", strict=(c[1] == "<"), init=init, term=e, cond=c, none_seeded=none_seeded)
                 ext[c] = v
                 continue
+        # tie test first: `if tie(e, best): ... elif e > best: best = e`
+        if u[0] == "ite" and u[2] == acc and u[3][0] == "ite" and u[3][3] == acc and u[3][1][0] == "cmp" and u[3][1][1] in ("<", "<=") \
+                and mentions(u[1], lambda x: x == acc) and not mentions_acc(u[3][2], loop.id):
+            c, e, T = u[3][1], u[3][2], u[1]
+            sense = "max" if (c[2] == acc and c[3] == e) else ("min" if (c[3] == acc and c[2] == e) else None)
+            if sense is not None:
+                exact = T == simp(("cmp", "==", e, acc))
+                out[v] = Fold("EXT", sense=sense, strict=(c[1] == "<"), init=init, term=e, cond=c, none_seeded=False,
+                              band=(None if exact else True), tie_first=T)
+                if not exact:
+                    out[v].cond_text = T
+                ext[c] = v
+                continue
         # running optimum updated under an inexact (tolerance band) comparison
         if u[0] == "ite" and u[3] == acc and u[1][0] == "cmp" and u[1][1] in ("<", "<=") and not mentions_acc(u[2], loop.id) \
                 and mentions(u[1], lambda x: x == acc) and mentions(u[1], lambda x: x == u[2]):
@@ -1111,7 +1131,20 @@ def classify(loop):
             continue
         acc = ("acc", loop.id, v)
         init = loop.init.get(v, UNBOUND)
-        if u[0] == "ite" and u[1] in ext and u[3] == acc and not mentions_acc(u[2], loop.id):
+        # tie-first arg-set: ite(T, acc ++ [l], ite(C1, [l], acc))
+        if u[0] == "ite" and u[3][0] == "ite" and u[3][1] in ext and u[3][3] == acc and u[3][2][0] == "list" and len(u[3][2][1]) == 1 \
+                and u[2] == simp(("cat", acc, u[3][2])):
+            bestv = ext[u[3][1]]
+            best = out[bestv]
+            if getattr(best, "tie_first", None) == u[1]:
+                label = u[3][2][1][0]
+                if getattr(best, "band", None):
+                    out[v] = Fold("ARGSET", of=bestv, init=init, label=label, ties="band", tie_cond=u[1])
+                else:
+                    out[v] = Fold("ARGSET", of=bestv, init=init, label=label, ties=True)
+                continue
+        if u[0] == "ite" and u[1] in ext and u[3] == acc and not mentions_acc(u[2], loop.id) \
+                and not (u[2][0] == "list" and len(u[2][1]) == 1 and init == ("list", ())):
             out[v] = Fold("ARG", of=ext[u[1]], init=init, term=u[2])
             continue
         if u[0] == "ite" and u[1] in ext and u[2][0] == "list" and len(u[2][1]) == 1:
